@@ -227,7 +227,7 @@ class EArray(Engine):
     prop = 'C14'
     name = 'E-ARRAY'
     level = 'exploration'
-    fault_kinds = ('extend_f', 'setslice_f', 'iop_unfit', 'fromfile', 'cache_clear', 'set_dtype', 'set_data')
+    fault_kinds = ('extend_f', 'setslice_f', 'iop_unfit', 'fromfile', 'cache_clear', 'set_dtype', 'set_data', 'option', 'poke_src')
     mutating_kinds = ('set', 'setslice', 'setslice_f', 'del', 'delslice', 'append', 'extend', 'extend_f', 'insert',
                       'pop', 'reverse', 'set_dtype', 'set_data', 'iop', 'iop_unfit', 'fromfile', 'byteswap')
     rule = ('one Array per run; dtype, initial items and trailing bits drawn in config from the dtype table; each run '
@@ -240,7 +240,7 @@ class EArray(Engine):
                        'SimFS (scratch directory of real files under /dev/shm) / io.BytesIO / SimWriter without fault plan']
     assumptions = ['item encodings/decodings are taken from the library (Dtype.build / Dtype.parse): C14 decides list and '
                    'offset arithmetic, promotion and atomicity, not the numeric correctness of an encoding (C02/C11)',
-                   'options stay at msb0 / not bytealigned / mxfp_overflow=saturate for the whole run',
+                   'options.lsb0 stays False and mxfp_overflow at saturate for the whole run; options.bytealigned is a per-run knob and is flipped by events',
                    'element-wise in-place operators may keep or drop trailing bits (DESIGN 5.3)',
                    'native byte order and array.array item sizes are those of the machine running the check']
     expected_probes = ('trailing:item-op', 'iop:first-unfit-at-0', 'iop:first-unfit-in-middle', 'iop:first-unfit-at-last',
@@ -262,7 +262,9 @@ class EArray(Engine):
         n = g.wpick([(0, 1), (1, 2), (2, 3), (3, 4), (4, 3), (5, 2), (6, 1), (8, 1), (11, 0.5)])
         tl = g.int(1, d.w - 1) if (d.w > 1 and g.chance(0.3)) else 0
         focus = g.wpick([('mixed', 4), ('list', 3), ('slices', 2), ('ops', 4), ('io', 1), ('dtype', 1.5), ('faults', 2)])
-        return {'dt': key, 'init': g.bits(n * d.w) + g.bits(tl), 'avoid': bool(desc.get('avoid')), 'focus': focus}
+        return {'dt': key, 'init': g.bits(n * d.w) + g.bits(tl), 'avoid': bool(desc.get('avoid')), 'focus': focus,
+                # knob: options.bytealigned is a default for searches in bitstrings and means nothing for an Array
+                'bytealigned': g.chance(0.15)}
 
     def start(self, cfg):
         self.R = loader.main()
@@ -279,6 +281,10 @@ class EArray(Engine):
         self._verified = None
         self._incs = []
         self._op, self._trig = 'start', '-'
+        self._src = None
+        if cfg.get('bytealigned'):
+            self.B.options.bytealigned = True
+            self.probe('option:bytealigned')
         key = cfg.get('dt')
         self.dt = TABLE[key] if key in TABLE else TABLE['uint8']
         init = cfg.get('init', '')
@@ -1273,8 +1279,11 @@ class EArray(Engine):
         self._op, self._trig = 'ctor', self.tb('via-' + str(how))
         kw = {}
         trail = self.trail
+        keep_src = None
         if use_tb and trail:
-            kw['trailing_bits'] = '0b' + trail if ev.get('tb_as') != 'bits' else B.Bits(bin=trail)
+            kw['trailing_bits'] = '0b' + trail if ev.get('tb_as') != 'bits' else B.Bits(bin=trail) if ev.get('cls') != 'BitArray' else B.BitArray(bin=trail)
+            if ev.get('tb_as') == 'bits' and ev.get('cls') == 'BitArray':
+                keep_src = kw['trailing_bits']
         h = None
         if how in ('list', 'tuple', 'gen', 'array'):
             vals = self.vals()
@@ -1303,6 +1312,7 @@ class EArray(Engine):
                 bits = bits[:len(bits) - len(bits) % 8]
             if how == 'bits':
                 src = B.Bits(bin=bits) if ev.get('cls') != 'BitArray' else B.BitArray(bin=bits)
+                keep_src = src if ev.get('cls') == 'BitArray' else None
             else:
                 by = bits_to_bytes(bits)
                 if how == 'bytearray':
@@ -1332,6 +1342,9 @@ class EArray(Engine):
             self.a = c
             self.it = None
             self._verified = None
+            self._src = keep_src
+            if keep_src is not None:
+                self.queue.append({'k': 'poke_src', 'how': 'invert' if len(self.items) % 2 else 'append'})
         return self._obs(st, c)
 
     def ev_astype(self, ev):
@@ -1360,6 +1373,27 @@ class EArray(Engine):
             pass        # not covered by the statement: refusing an Array with trailing bits is accepted
         elif self.want_ok(st, r):
             self.items = [''.join(reversed([c[i:i + 8] for i in range(0, w, 8)])) for c in self.items]
+        return self._obs(st, r)
+
+    def ev_option(self, ev):
+        """options.bytealigned flipped between two operations: a reconfiguration an Array must not notice."""
+        self._op = 'option'
+        self.B.options.bytealigned = bool(ev.get('value'))
+        self.probe('option:bytealigned')
+        self._verified = None
+        return {'st': 'ok'}
+
+    def ev_poke_src(self, ev):
+        """The caller changes the BitArray an earlier constructor call was given (data or trailing bits): the Array was
+        built FROM it and must not move."""
+        self._op, self._trig = 'poke_src', self.tb('after-ctor')
+        src = self._src
+        if src is None:
+            return {'skip': 'no constructor source alive'}
+        how = ev.get('how')
+        st, r = call(lambda: (src.invert() if (how == 'invert' and len(src)) else src.append('0b1') if how == 'append' else src.clear()))
+        self.probe('ctor:source-changed-afterwards')
+        self._verified = None
         return self._obs(st, r)
 
     def ev_cache_clear(self, ev):
@@ -1678,13 +1712,13 @@ class EArray(Engine):
               ('count', 3), ('contains', 1), ('tolist', 1), ('iter', 1.5), ('iter_start', 1), ('iter_next', 2.5),
               ('equals', 3), ('copy', 2), ('set_dtype', 3), ('set_data', 2), ('props', 1), ('op', 8), ('iop', 6),
               ('iop_unfit', 2.5), ('rop', 3), ('unary', 2), ('tobytes', 1), ('tofile', 1.5), ('fromfile', 2.5),
-              ('astype', 2), ('byteswap', 1), ('cache_clear', 2), ('ctor', 3))
+              ('astype', 2), ('byteswap', 1), ('cache_clear', 2), ('ctor', 3), ('option', 1), ('poke_src', 1))
     FOCUS = {'list': ('get', 'set', 'del', 'append', 'extend', 'insert', 'pop', 'reverse', 'count', 'iter_next'),
              'slices': ('getslice', 'setslice', 'setslice_f', 'delslice'),
              'ops': ('op', 'iop', 'iop_unfit', 'rop', 'unary'),
              'io': ('tofile', 'fromfile', 'tobytes', 'extend'),
              'dtype': ('set_dtype', 'set_data', 'astype', 'equals', 'cache_clear', 'ctor'),
-             'faults': ('extend_f', 'setslice_f', 'iop_unfit', 'fromfile', 'cache_clear', 'set_dtype')}
+             'faults': ('extend_f', 'setslice_f', 'iop_unfit', 'fromfile', 'cache_clear', 'set_dtype', 'option')}
 
     def gen(self, g):
         if self.queue:
@@ -1928,6 +1962,14 @@ class EArray(Engine):
     def g_ctor(self, g):
         return {'k': 'ctor', 'how': g.pick(['list', 'list', 'tuple', 'gen', 'array', 'int', 'bits', 'bits', 'bytes', 'bytearray', 'memoryview', 'file']),
                 'tb_kw': g.chance(0.5), 'tb_as': g.pick(['str', 'bits']), 'cls': g.pick(['Bits', 'BitArray'])}
+
+    def g_option(self, g):
+        return {'k': 'option', 'value': g.chance(0.6)}
+
+    def g_poke_src(self, g):
+        if self._src is None:
+            return None
+        return {'k': 'poke_src', 'how': g.pick(['invert', 'append', 'clear'])}
 
     def g_copy(self, g):
         how = g.wpick([('copy', 3), ('slice', 3), ('deepcopy', 1)])
